@@ -4,12 +4,18 @@ emit('C14', '''C14 — Full mesh from any connected bootstrap; a node never peer
    peers and dials them); that the real nodes perform that step within the announce interval,
    also behind address-filtering NATs, is decided by the executed correspondence over all connected
    bootstrap graphs of 2-4 nodes, sampled 5-node graphs and NAT scenarios (py/props/c14.py).''',
- ['Base','Conn','PeerCrypto','NodeInfo','Table','Node','NodeProofs','TrustProofs','NextHopProofs','PcInvariant','AdmissionProofs','SelfProofs'],
+ ['Base','Conn','PeerCrypto','NodeInfo','Table','Node','NodeProofs','TrustProofs','NextHopProofs','PcInvariant','AdmissionProofs','SelfProofs','OwnAddrProofs'],
  [  ('own_message_rejected','NodeProofs.v','own_message_rejected','a handshake message carrying the node\'s own id is rejected at every stage, by whatever address it arrived (after the fix of F13): object unchanged, no reply'),
   ('never_peers_with_itself','SelfProofs.v','never_peers_with_itself','WHOLE RUNS: every peer of every reachable node state (any events, times, salts) was admitted by a handshake message carrying ANOTHER node\'s id - a node never peers with itself, through whatever address its own messages come back (every handshake object keeps the node number it was created with: invariant NI through PcInvariant.v; a handshake completes only on a message of another node: success_not_self)'),
+  ('own_addresses_known','OwnAddrProofs.v','reachable_ow','WHOLE RUNS, the address side: in every reachable node state the own-address list contains every address the node was configured to advertise and its socket address (OW: the list only grows - addresses reported under the own id are adopted - or is reset to exactly the configured list)'),
+  ('never_dials_own_address','OwnAddrProofs.v','never_dials_own_address','... so in every reachable state dialling one of the configured own addresses sends nothing and changes nothing'),
   ('own_addresses_adopted','NodeProofs.v','adopt_own_addresses','addresses listed under the node\'s own id are added to its own addresses, nothing is dialled, no peer or pending entry appears'),
  ],
  tail='''
+(* non-vacuity *)
+Example C14_ex_own : In 1002 (c_advertise (n_cfg ex_b) ++ [c_addr (n_cfg ex_b)]) /\\ memN 1002 (n_own ex_b) = true.
+Proof. exact ex_own. Qed.
+
 (* one peer-exchange round: whoever is connected to a neighbour of mine becomes my neighbour
    (NodeProofs.exchange).  Two nodes joined by a path of k+1 connections are directly connected after
    k rounds: a connected set of n nodes is fully meshed after at most n-2 rounds. *)
